@@ -113,13 +113,14 @@ func Map(page mm.Page, frame mm.Frame, flags PageTableEntryFlag) *kernel.Error {
 // available region in the active virtual address space, establishes the
 // mapping and returns back the Page that corresponds to the region start.
 func MapRegion(frame mm.Frame, size uintptr, flags PageTableEntryFlag) (mm.Page, *kernel.Error) {
-	// Reserve next free block in the address space
-	size = (size + (mm.PageSize - 1)) & ^(mm.PageSize - 1)
+	// Reserve next free block in the address space. The reservation
+	// rejects sizes that cannot be rounded up to a page boundary.
 	startPage, err := earlyReserveRegionFn(size)
 	if err != nil {
 		return 0, err
 	}
 
+	size = (size + (mm.PageSize - 1)) & ^(mm.PageSize - 1)
 	pageCount := size >> mm.PageShift
 	for page := mm.PageFromAddress(startPage); pageCount > 0; pageCount, page, frame = pageCount-1, page+1, frame+1 {
 		if err := mapFn(page, frame, flags); err != nil {
@@ -137,7 +138,10 @@ func MapRegion(frame mm.Frame, size uintptr, flags PageTableEntryFlag) (mm.Page,
 // start.
 func IdentityMapRegion(startFrame mm.Frame, size uintptr, flags PageTableEntryFlag) (mm.Page, *kernel.Error) {
 	startPage := mm.Page(startFrame)
-	pageCount := mm.Page(((size + (mm.PageSize - 1)) & ^(mm.PageSize - 1)) >> mm.PageShift)
+	pageCount := mm.Page(size >> mm.PageShift)
+	if size&(mm.PageSize-1) != 0 {
+		pageCount++
+	}
 
 	for curPage := startPage; curPage < startPage+pageCount; curPage++ {
 		if err := mapFn(curPage, mm.Frame(curPage), flags); err != nil {
